@@ -41,69 +41,82 @@ func (c *Ctx) edgeMust(P, rule, fnName, condRe string, truth bool, mustRe string
 	o.Pos = c.A.FnPos(fn)
 	cre := c.E1.re(condRe)
 	n := 0
-	for _, b := range fn.Blocks {
-		if len(b.Instrs) == 0 {
-			continue
-		}
-		iff, ok := b.Instrs[len(b.Instrs)-1].(*ssa.If)
-		if !ok {
-			continue
-		}
-		atom := condAtom(iff.Cond)
-		var work []*ssa.BasicBlock
-		if cre.MatchString(atom.Str) {
-			idx := 0 // successor on which the atom is true
-			if atom.Neg {
-				idx = 1
-			}
-			if !truth {
-				idx = 1 - idx
-			}
-			work = []*ssa.BasicBlock{b.Succs[idx]}
-		} else {
-			// the guard may live in a predicate helper: the branch is on helper(args), and the atom is
-			// tested inside it. Under the atom's given truth the helper decides the branch (one edge
-			// to follow) or does not (both edges are possible continuations and both owe the construct).
-			matched := []int{0}
-			known, val := c.E1.helperBool(iff.Cond, []Lit{{Re: condRe, Val: truth}}, matched)
-			if matched[0] == 0 {
+	var scan func(fn *ssa.Function, depth int)
+	scan = func(fn *ssa.Function, depth int) {
+		for _, b := range fn.Blocks {
+			if len(b.Instrs) == 0 {
 				continue
 			}
-			switch {
-			case known && val:
-				work = []*ssa.BasicBlock{b.Succs[0]}
-			case known:
-				work = []*ssa.BasicBlock{b.Succs[1]}
-			default:
-				work = []*ssa.BasicBlock{b.Succs[0], b.Succs[1]}
-			}
-		}
-		n++
-		seen := map[*ssa.BasicBlock]bool{}
-		for len(work) > 0 {
-			x := work[len(work)-1]
-			work = work[:len(work)-1]
-			if seen[x] {
-				continue
-			}
-			seen[x] = true
-			o.Facts++
-			if x != b && x.Dominates(b) || x == b {
-				o.fail(c.A.Pos(iff.Cond.Pos()), "from the branch at %s control returns to block b%d (next iteration) without %s", c.A.Pos(iff.Cond.Pos()), x.Index, mustRe)
-				continue
-			}
-			if blockHas(c, x, mustRe) {
-				continue
-			}
-			if len(x.Instrs) > 0 {
-				if r, isRet := x.Instrs[len(x.Instrs)-1].(*ssa.Return); isRet {
-					o.fail(c.A.Pos(r.Pos()), "from the branch at %s a return is reached without %s", c.A.Pos(iff.Cond.Pos()), mustRe)
-					continue
+			// the branch may sit in a function extracted after the rows were written: it is looked for there
+			// too, in the caller's terms (the construct owed on the edge is then owed inside that function)
+			if depth < throughMax {
+				for _, ins := range b.Instrs {
+					if callee, args := newCallee(ins); callee != nil {
+						inFrame(callee, args, func() { scan(callee, depth+1) })
+					}
 				}
 			}
-			work = append(work, x.Succs...)
+			iff, ok := b.Instrs[len(b.Instrs)-1].(*ssa.If)
+			if !ok {
+				continue
+			}
+			atom := condAtom(iff.Cond)
+			var work []*ssa.BasicBlock
+			if cre.MatchString(atom.Str) {
+				idx := 0 // successor on which the atom is true
+				if atom.Neg {
+					idx = 1
+				}
+				if !truth {
+					idx = 1 - idx
+				}
+				work = []*ssa.BasicBlock{b.Succs[idx]}
+			} else {
+				// the guard may live in a predicate helper: the branch is on helper(args), and the atom is
+				// tested inside it. Under the atom's given truth the helper decides the branch (one edge
+				// to follow) or does not (both edges are possible continuations and both owe the construct).
+				matched := []int{0}
+				known, val := c.E1.helperBool(iff.Cond, []Lit{{Re: condRe, Val: truth}}, matched)
+				if matched[0] == 0 {
+					continue
+				}
+				switch {
+				case known && val:
+					work = []*ssa.BasicBlock{b.Succs[0]}
+				case known:
+					work = []*ssa.BasicBlock{b.Succs[1]}
+				default:
+					work = []*ssa.BasicBlock{b.Succs[0], b.Succs[1]}
+				}
+			}
+			n++
+			seen := map[*ssa.BasicBlock]bool{}
+			for len(work) > 0 {
+				x := work[len(work)-1]
+				work = work[:len(work)-1]
+				if seen[x] {
+					continue
+				}
+				seen[x] = true
+				o.Facts++
+				if x != b && x.Dominates(b) || x == b {
+					o.fail(c.A.Pos(iff.Cond.Pos()), "from the branch at %s control returns to block b%d (next iteration) without %s", c.A.Pos(iff.Cond.Pos()), x.Index, mustRe)
+					continue
+				}
+				if blockHas(c, x, mustRe) {
+					continue
+				}
+				if len(x.Instrs) > 0 {
+					if r, isRet := x.Instrs[len(x.Instrs)-1].(*ssa.Return); isRet {
+						o.fail(c.A.Pos(r.Pos()), "from the branch at %s a return is reached without %s", c.A.Pos(iff.Cond.Pos()), mustRe)
+						continue
+					}
+				}
+				work = append(work, x.Succs...)
+			}
 		}
 	}
+	scan(fn, 0)
 	if n < minIfs {
 		// the value is still computed but no branch depends on it any more (go/ssa drops
 		// an If whose two successors coincide): its outcome is ignored
